@@ -30,7 +30,7 @@ RULE = ("case = (A) one web server: a route table of <= 3 GET and <= 3 POST rout
 ASSUMPTIONS = ["requests are issued one at a time (the property's quantifier has no schedules)", "handlers mention both x and y where two parameters are passed (arity is inferred from the parameters a function mentions)",
                "the text of a handler's result is Python str() of the returned value, as the implementation documents"]
 MIN_COUNTS = {"quick": {"nontrivial": 50, "http_requests": 450, "ws_messages_delivered": 250, "servers_closed": 25},
-              "thorough": {"nontrivial": 800, "http_requests": 10000, "ws_messages_delivered": 5000, "servers_closed": 400}}
+              "thorough": {"nontrivial": 800, "http_requests": 6000, "ws_messages_delivered": 4000, "servers_closed": 400}}
 CASE_TIMEOUT = 300
 MIN_SHARD = 3
 
